@@ -367,6 +367,7 @@ func runCase(l *list, mask uint64, fullTamper bool, r *result) {
 		}
 	}
 	nFixed := len(cands)
+	bigProof := !fullTamper && len(flags) > 40
 	for i, h := range hashes {
 		addCand(h, fmt.Sprintf("proof hash %d", i))
 	}
@@ -387,6 +388,9 @@ func runCase(l *list, mask uint64, fullTamper bool, r *result) {
 					continue
 				}
 			}
+			if bigProof && ci > 0 && ci < nFixed {
+				continue // long proofs of large lists: fresh hash and the neighbours only
+			}
 			done[c] = true
 			t := append([]h32(nil), hashes...)
 			t[i] = c
@@ -397,7 +401,7 @@ func runCase(l *list, mask uint64, fullTamper bool, r *result) {
 	// --- tampered flags
 	for i, f := range flags {
 		for _, v := range []uint8{0, 1, 2, 3, 255} {
-			if v == f {
+			if v == f || (bigProof && v == 255) {
 				continue
 			}
 			t := append([]uint8(nil), flags...)
@@ -664,7 +668,7 @@ func main() {
 	run.Set("structured_list_sizes", structured)
 	run.Set("structured_subsets", structCount)
 	run.Set("max_list_size", maxN)
-	run.Set("rule", "a case is one (n, subset) proof, distinct by construction (every bitmask once per n), plus each of its single tamperings. Non-trivial = proofs that contain at least one assist hash and at least one proven leaf (so the tree is really traversed). For n <= every_subset_up_to_n every subset and, per proof, every hash position x {fresh hash, id and leaf hash of every list element, every other proof hash} and every flag position x {0,1,2,3,255}; for larger n the subsets are size <= 2, contiguous ranges and singleton complements and hash substitutes are the fresh hash, the two neighbouring proof hashes and ids/leaf hashes of the list ends and of the elements at and next to the subset ends.")
+	run.Set("rule", "a case is one (n, subset) proof, distinct by construction (every bitmask once per n), plus each of its single tamperings. Non-trivial = proofs that contain at least one assist hash and at least one proven leaf (so the tree is really traversed). For n <= every_subset_up_to_n every subset and, per proof, every hash position x {fresh hash, id and leaf hash of every list element, every other proof hash} and every flag position x {0,1,2,3,255}; for larger n the subsets are size <= 2, contiguous ranges and singleton complements and hash substitutes are the fresh hash, the two neighbouring proof hashes and ids/leaf hashes of the list ends and of the elements at and next to the subset ends (proofs with more than 40 flags: fresh hash and neighbours only, flag values 0..3).")
 	run.Assume("golang.org/x/crypto/sha3 is trusted as SHA3-256 (anchored on the empty-string digest); hash collisions are not considered")
 	run.Assume("transaction ids are opaque distinct 32-byte values; the algorithm does not look inside them, so one list per size is enumerated")
 	run.Assume("related transactions are passed in list order (both callers in the node filter block.Transactions in order); trailing elements after a complete proof and re-ordered related sets are counted as observations, not tamperings of a proof hash or flag")
